@@ -13,12 +13,13 @@ use crate::simalloc::{Config, Fill, Placement};
 pub fn draw_cfg(seed: u64) -> Config {
     let mut r = Rng::fork(seed, STREAM_ALLOC);
     Config {
-        placement: match r.below(10) {
+        placement: match r.below(12) {
             0 => Placement::Natural16,
             1..=3 => Placement::MinAlign,
             4..=5 => Placement::ReuseLifo,
             6..=7 => Placement::RandomGap,
-            _ => Placement::PageEnd,
+            8..=9 => Placement::PageEnd,
+            _ => Placement::Packed,
         },
         fill: match r.below(8) {
             0 => Fill::Zero,
